@@ -574,10 +574,12 @@ class EllipsoidalEnergyDescription(StrainEnergyDescriptionBase):
         eigenstrain = self.params.eigenstrain
 
         V = 4*np.pi/3 * np.prod(radius)
-        S = convert4To2rankTensor(self.Sijmn(self.Dijkl(radius, c4)))
+        #a_ijkl*b_kl counts each shear pair (kl and lk) twice: weight the shear columns
+        w = np.array([1, 1, 1, 2, 2, 2])
+        S = convert4To2rankTensor(self.Sijmn(self.Dijkl(radius, c4))) * w
         eigFlat = convert2rankToVec(eigenstrain)
-        multTerm = np.matmul(c2, S - np.eye(6))
-        return -0.5 * V * np.matmul(eigFlat, np.matmul(multTerm, eigFlat))
+        multTerm = np.matmul(c2 * w, S - np.eye(6))
+        return -0.5 * V * np.matmul(w * eigFlat, np.matmul(multTerm, eigFlat))
 
     def strainEnergyBohm(self, radius):
         '''
@@ -605,13 +607,16 @@ class EllipsoidalEnergyDescription(StrainEnergyDescriptionBase):
         cP2 = self.params.cPrec_2nd
 
         V = 4*np.pi/3 * np.prod(radius)
-        S = convert4To2rankTensor(self.Sijmn(self.Dijkl(radius, cM4)))
+        #a_ijkl*b_kl counts each shear pair (kl and lk) twice: weight the shear columns
+        w = np.array([1, 1, 1, 2, 2, 2])
+        cM2, cP2 = cM2 * w, cP2 * w
+        S = convert4To2rankTensor(self.Sijmn(self.Dijkl(radius, cM4))) * w
         eigFlat = convert2rankToVec(eigenstrain)
         invTerm = np.linalg.inv(np.matmul(cP2 - cM2, S) + cM2)
         multTerm = np.matmul(invTerm, cP2)
         stressC = np.matmul(cM2, np.matmul(np.matmul(S, multTerm), eigFlat))
         stress0 = np.matmul(cM2, np.matmul(multTerm, eigFlat))
-        return -0.5 * V * np.matmul(eigFlat, stressC - stress0)
+        return -0.5 * V * np.matmul(w * eigFlat, stressC - stress0)
 
     def computeStrainEnergy(self, radius):
         return self.strainEnergyBohm(radius)
